@@ -60,7 +60,7 @@ ReinitFeat == Between /\ Call("reinitfeat", "", "ok", st)
 Retain == st.rc = 1 /\ Call("retain", "", "obj", [st EXCEPT !.rc = 2])
 Release == st.rc = 2 /\ Call("release", "", "n", [st EXCEPT !.rc = 1])
 
-FeedKinds == {"tiny", "norm", "f32", "long", "zero", "nosearch", "full", "full-nosearch"}
+FeedKinds == {"tiny", "norm", "f32", "long", "f32long", "zero", "nosearch", "f32nosearch", "full", "full-nosearch"}
 GramKinds == {"jsgf", "align", "fsg", "jsgffile", "bad-syntax", "undefined-rule", "unknown-word", "fsg-unknown-word", "no-public",
               "jsgffile-missing"}
 WordKinds == {"new", "duplicate", "bad-phone", "empty-word", "empty-pron", "alt-without-base"}
